@@ -247,7 +247,9 @@ func DecodeAztec(g *Grid) (*AztecResult, error) {
 	lead := totalBits % ws
 	for i := 0; i < lead; i++ {
 		if raw[i] {
-			res.LeadingPad++
+			// the modules in front of the first codeword (fewer than one word) are unused
+			// and left light; found unconstrained by tools/oracle_sensitivity.sh
+			return nil, fail("aztec-leading-pad", "unused module %d in front of the first codeword is dark", i)
 		}
 	}
 	words := make([]int, totalWords)
